@@ -10,6 +10,7 @@ INVARIANT BagMatches
 INVARIANT ListMatches
 INVARIANT TargetMatches
 INVARIANT Conformed
+INVARIANT StrictlyCoherent
 INVARIANT RawConformKeeps
 INVARIANT WF
 INVARIANT MetaTruthful
